@@ -488,7 +488,7 @@ func (encryptor *QueryDataEncryptor) savePlaceholderSettingIntoClientSession(ctx
 			continue
 		}
 		setting := schema.GetColumnEncryptionSettings(columnName)
-		bindData[i] = setting
+		base.SetPlaceholderSetting(bindData, i, setting)
 	}
 }
 
